@@ -45,7 +45,7 @@ func init() {
 		},
 		outside:     "longer streams; helper.Field/CheckEquals (reflection), CSV/JSON helpers (C11/C19); Head raced against a concurrent reader (unspecified by its contract)",
 		assumptions: append([]string{realModeNote, "oracle: slice models in harness/h/c16.go (Appendix C of DESIGN.md)"}, commonAssumptions...),
-		cases: func(tier string) []sym.CaseSpec {
+		cases: func(tier string, pr *prober) []sym.CaseSpec {
 			maxLen, zipLen := 5, 3
 			caps := []int{0, 2}
 			if tier == "thorough" {
@@ -130,7 +130,7 @@ func init() {
 		},
 		outside:     "longer histories (ring: covered by the inductive step given the invariant; Bst: not covered), NaN and infinities as Bst elements, concurrent use",
 		assumptions: append([]string{"fp mode: bit-precise IEEE-754 (QF_FP); the comparison of a difference with zero is rewritten to a direct comparison by a lemma that the solver discharges (unsat) once per solver process before it is used", "ring representation invariant: 0<=begin,end<cap and empty => begin==end (shown reachable-closed by the history harness)"}, commonAssumptions...),
-		cases: func(tier string) []sym.CaseSpec {
+		cases: func(tier string, pr *prober) []sym.CaseSpec {
 			var out []sym.CaseSpec
 			maxCap, histLen := 4, 6
 			if tier == "thorough" {
